@@ -197,13 +197,11 @@ func SNP(golden *epb.VMGoldenMeasurement, opts *SNPOptions) error {
 		if m == nil {
 			return ErrNoSevSnpMeasurements
 		}
-		var measure []byte
-		var ok bool
-		if opts.ExpectedLaunchVMSAs == 1 {
-			measure = snp.SvsmMeasurement
-			ok = len(measure) > 0
-		} else {
-			measure, ok = m[opts.ExpectedLaunchVMSAs]
+		measure, ok := m[opts.ExpectedLaunchVMSAs]
+		// A single launch VMSA is either an SVSM launch or the firmware booting APs itself.
+		if opts.ExpectedLaunchVMSAs == 1 && len(snp.SvsmMeasurement) > 0 &&
+			(!ok || bytes.Equal(snp.SvsmMeasurement, opts.Measurement)) {
+			measure, ok = snp.SvsmMeasurement, true
 		}
 		if !ok {
 			return fmt.Errorf("no golden measurement for %d launch VMSAs", opts.ExpectedLaunchVMSAs)
